@@ -206,6 +206,9 @@ func runC02(c *Check) {
 	c.ruleRevertPrunesViaGetter("R9", a)
 	c.ruleRevertRemovesRevertedHeights("R11")
 	c.ruleStartHeightIsNextHeight("R12")
+	c.ruleEveryAddedBlockAnnounced("R13")
+	c.ruleTipReadNotStale("R14")
+	c.ruleGenesisAtHeightZero("R15", a)
 }
 
 // ruleRepoCoupled: any function that writes one of (height, lastHeaders, heights) writes the others on
@@ -380,6 +383,7 @@ func runC09(c *Check) {
 	c.ruleHeightGettersAgree("R13")
 	c.ruleRevertStartsAtNewestFile("R15")
 	c.ruleLatestHeadersStart("R16")
+	c.ruleGenesisAtHeightZero("R17", a)
 	c.ruleSaveNotSkipped("R12", []string{"storage.(*BlockRepository).save", "storage.(*BlockRepository).Save"}, "storage", "BlockRepository",
 		map[*types.Var]bool{a.lastHeaders: true, a.height: true}, map[string]bool{"storage.(*BlockRepository).Load": true, "storage.NewBlockRepository": true})
 
